@@ -579,7 +579,9 @@ XAtoms == << Tok("T1"), Tok("T2"), Tok("T3"), Tok("T8"), Tok("T9"),
              TokIn("U1", "b"), TokIn("U2", "b"), StructT("S9", "b", <<Fld("A", "U1"), Fld("c", "U2")>>), TokIn("V1", "c"),
              StructT("S2", "a", <<Fld("F", "T2"), Fld("G", "T3")>>),
              \* embedded fields: the field name is the type's name
-             StructT("S3", "a", <<FldT("T2", "T2", "embed"), FldT("T3", "*T3", "embed"), Fld("H", "T8")>>) >>
+             StructT("S3", "a", <<FldT("T2", "T2", "embed"), FldT("T3", "*T3", "embed"), Fld("H", "T8")>>),
+             StructT("S4", "a", <<Fld("K", "*C"), Fld("L", "T2")>>),
+             MkAtom("Z", "tok", "a", <<>>, <<>>, <<Impl("I1", "value")>>, "") >>
 XF(name, ins, out) == Func(name, ins, out, FALSE, FALSE)
 XInj(name, params, out, items, file) == [Inj(name, params, out, FALSE, FALSE, items) EXCEPT !.file = file]
 XProg(v) ==
@@ -733,6 +735,35 @@ XProg(v) ==
     [] v \in {"same-provider-twice-direct", "same-provider-twice-in-set"} ->   \* one provider function listed twice
          mk(<<XF("P2", <<>>, "T2"), XF("P1", <<"T2">>, "T1")>>, <<SetD("SetA", "a", <<ItL(1), ItL(2), ItL(1)>>)>>,
             <<XInj("Inject", <<>>, "T1", IF v = "same-provider-twice-direct" THEN <<ItL(1), ItL(2), ItL(1)>> ELSE <<ItS(1)>>, 1)>>)
+    [] v = "cycle-through-pointer-types" ->     \* a cycle whose members are unnamed composite (pointer) types
+         mk(<<XF("PA", <<"*T2">>, "*T1"), XF("PB", <<"*T1">>, "*T2"), XF("P3", <<>>, "T3")>>, <<SetD("SetA", "a", <<ItL(1), ItL(2), ItL(3)>>)>>,
+            <<XInj("Inject", <<>>, "T3", <<ItS(1)>>, 1)>>)
+    [] v = "cycle-behind-bound-interface" ->    \* the cycle search meets the bound interface (I1 sorts first) before the cycle through its concrete type Z
+         mk(<<BindL("B", "I1", "Z"), XF("PZ", <<"T9">>, "Z"), XF("P9", <<"Z">>, "T9"), XF("P3", <<>>, "T3")>>, <<SetD("SetA", "a", <<ItL(1), ItL(2), ItL(3)>>)>>,
+            <<XInj("Inject", <<>>, "T3", <<ItS(1), ItL(4)>>, 1)>>)
+    [] v = "bind-to-field-type" ->              \* an interface bound to a concrete type that only a wire.FieldsOf item of the same call provides
+         mk(<<FieldsL("FO", "S4", <<"K">>), BindL("B", "I1", "*C"), XF("PS4", <<>>, "S4"), XF("Q", <<"I1">>, "T9")>>, <<SetD("SetA", "a", <<ItL(1), ItL(2), ItL(3)>>)>>,
+            <<XInj("Inject", <<>>, "T9", <<ItL(1), ItL(2), ItL(3), ItL(4)>>, 1), XInj("InjectSet", <<>>, "T9", <<ItS(1), ItL(4)>>, 1)>>)
+    [] v = "variadic-dup-param" ->              \* a variadic provider whose fixed parameter has the variadic parameter's slice type
+         mk(<<[XF("PV", <<"[]T3", "[]T3">>, "T1") EXCEPT !.va = TRUE], XF("PS", <<>>, "[]T3")>>, <<SetD("SetB", "b", <<>>)>>,
+            <<XInj("Inject", <<>>, "T1", <<ItL(1), ItL(2)>>, 1)>>)
+    [] v = "arg-returned-directly-full-sig" ->  \* no provider call at all, and the injector declares a cleanup and an error it does not need
+         mk(<<BindL("B", "I1", "*C")>>, <<>>,
+            <<[XInj("Inject", <<Par("p1", "*C1"), Par("p2", "*C")>>, "*C", <<>>, 1) EXCEPT !.cl = TRUE, !.er = TRUE],
+              [XInj("InjectI", <<Par("p1", "*C1"), Par("p2", "*C")>>, "I1", <<ItL(1)>>, 1) EXCEPT !.er = TRUE]>>)
+    [] v = "struct-both-forms-plus-superfluous" ->   \* a struct provider needed as S and as *S, and one item nothing needs
+         mk(<<StructL("St", "S2", <<"F", "G">>, FALSE), XF("P2", <<>>, "T2"), XF("P3", <<>>, "T3"), XF("Q", <<"S2", "*S2">>, "T1"), XF("P8", <<>>, "T8")>>, <<>>,
+            <<XInj("Inject", <<>>, "T1", <<ItL(1), ItL(2), ItL(3), ItL(4), ItL(5)>>, 1), XInj("InjectOK", <<>>, "T1", <<ItL(1), ItL(2), ItL(3), ItL(4)>>, 1)>>)
+    [] v = "same-name-packages-one-unused" ->   \* two packages with one name, each with a provider New; only one of them is needed
+         mk(<<FuncIn("NewB", "b", <<>>, "U1", FALSE, FALSE), FuncIn("NewC", "c", <<>>, "V1", FALSE, FALSE), XF("P1", <<"U1">>, "T1"), XF("P9", <<"V1">>, "T9")>>, <<>>,
+            <<XInj("Inject", <<>>, "T1", <<ItL(1), ItL(2), ItL(3)>>, 1), XInj("InjectC", <<>>, "T9", <<ItL(2), ItL(1), ItL(4)>>, 1)>>)
+         @@ [naming |-> [x \in {"pkg:b", "pkg:c", "alias:b", "alias:c", "NewB", "NewC"} |->
+                          CASE x \in {"pkg:b", "pkg:c"} -> "store" [] x = "alias:b" -> "bstore" [] x = "alias:c" -> "cstore" [] OTHER -> "New"]]
+    [] v = "blank-param-conflicts-with-set" ->  \* a parameter named _ is a source like any other
+         mk(<<XF("P2", <<>>, "T2"), XF("P1", <<"T2">>, "T1")>>, <<SetD("SetA", "a", <<ItL(1)>>)>>,
+            <<XInj("Inject", <<Par("_", "T2")>>, "T1", <<ItS(1), ItL(2)>>, 1), XInj("InjectUnnamed", <<Par("", "T2")>>, "T1", <<ItS(1), ItL(2)>>, 1)>>)
+    [] v = "embed-in-injector-file" ->          \* the injector file has a blank import its copied declarations need; nothing else is imported
+         mk(<<XF("P3", <<>>, "T3")>>, <<>>, <<XInj("Inject", <<>>, "T3", <<ItL(1)>>, 1)>>) @@ [opts |-> [embeddecl |-> TRUE]]
     [] v = "same-set-twice-direct" ->          \* one set listed twice in the same call
          mk(<<XF("P2", <<>>, "T2"), XF("P1", <<"T2">>, "T1")>>, <<SetD("SetA", "a", <<ItL(1)>>)>>,
             <<XInj("Inject", <<>>, "T1", <<ItS(1), ItL(2), ItS(1)>>, 1)>>)
@@ -751,7 +782,9 @@ XVariants == {"star-foreign-tag-missing", "star-foreign-tag-ok", "two-files-firs
               "generic-injector", "method-injector",
               "inline-set-partly-used", "inline-set-unused", "inline-set-in-named-set", "inline-set-conflict", "inline-set-twice",
               "embedded-fields-struct", "embedded-fields-fieldsof", "same-text-values-two-packages",
-              "sets-in-injector-file", "same-provider-twice-direct", "same-provider-twice-in-set"}
+              "sets-in-injector-file", "same-provider-twice-direct", "same-provider-twice-in-set",
+              "cycle-through-pointer-types", "cycle-behind-bound-interface", "bind-to-field-type", "variadic-dup-param", "arg-returned-directly-full-sig",
+              "struct-both-forms-plus-superfluous", "same-name-packages-one-unused", "blank-param-conflicts-with-set", "embed-in-injector-file"}
 FamilyX(p, vs) == \E v \in vs : p = XProg(v)
 
 (* ======================================================================== *)
